@@ -16,6 +16,8 @@ from fractions import Fraction
 import numpy
 
 from .core import Driver, VERIF, frac
+from . import c01_ops
+from .c01_ops import AWAITING_DECISION  # noqa: F401  (input classes observed but not enforced, see notes/C01.md)
 
 LEVEL_TEXT = ("Proof: on every lattice (any spacing, anchor, extent, holes, mask flags, duplicates, polygon order) the model of "
               "CartesianGrid2D attributes a point to polygon k exactly when k is the last listed polygon of an active "
@@ -30,7 +32,11 @@ LEVEL_TEXT = ("Proof: on every lattice (any spacing, anchor, extent, holes, mask
               "coordinates within +-2^10 and at most 2^16 columns / rows (midpoint_hash_correct, fromOrigins_hashes_lattice; "
               "bin1d_vec proved exact in the middle half of every bin; end to end for decimal lattices, where xs / ys are "
               "proved to be the nearest doubles of the decimal grid: decimal_lattice_construction), kernel-checked on every column and row of four shipped "
-              "regions, and compared bit for bit with the real constructor on every generated and shipped region.")
+              "regions, and compared bit for bit with the real constructor on every generated and shipped region. Round 3: masked_region is proved to "
+              "restrict the partition to the kept cells (same half-open boxes, old index = keptIdx of the new one), the four children of "
+              "increase_grid_resolution to partition their parent cell, a region rebuilt from (origins, dh, mask) to be the same partition, and "
+              "CSEPCatalog.filter_spatial — as a state machine over region argument, bound region, in_place, update_stats — to keep exactly the events the "
+              "partition puts in a cell, idempotently, after which index lookup and per-cell counts cannot raise.")
 LEVEL_NOTE = ("The 1-D lookup is modelled by its exact meaning (last edge <= x, closed top); the float formula of bin1d_vec is "
               "the subject of C02. Inside the documented round-off band immediately below a boundary "
               "(eps*(6|x| + (2m+6)|a0|) + 2^-1022, eps = 2^-52) either adjacent cell is accepted, outside the band the answer must "
@@ -53,7 +59,13 @@ THEOREMS = ["Region.col_eq_iff", "Region.row_eq_iff", "Region.col_eq_floor", "Re
             "Region.midpoint_hash_correct", "Region.cell_centre_hash_exact", "Region.interior_bin_exact",
             "Region.fromOrigins_hashes_lattice", "Region.decimal_lattice_construction", "Region.inferred_spacing_exact", "Region.table_shipped_midpoints", "Region.location_of_index",
             "Region.location_of_negative_index", "Region.location_index_error", "Region.origins_roundtrip",
-            "Region.area_eq_closed_form", "Region.area_additive", "Region.area_pos"]
+            "Region.area_eq_closed_form", "Region.area_additive", "Region.area_pos",
+            # Properties/C01_Ops.lean: derived regions and catalog sessions
+            "Region.window_inBox", "Region.masked_region_restricts", "Region.masked_region_old_index",
+            "Region.masked_region_same_cell", "Region.masked_region_outside_iff", "Region.refinement_partition",
+            "Region.regionEq_iff", "Region.rebuilt_from_origins_dh_mask", "Region.dict_roundtrip_same_partition",
+            "Region.eq_same_partition", "Region.filter_spatial_events", "Region.filter_spatial_no_region",
+            "Region.filter_spatial_idem", "Region.filter_spatial_stats", "Region.filter_then_lookup_total"]
 TRUSTED = ["Lean 4.33 kernel", "axioms: propext, Classical.choice, Quot.sound at most",
            "the float formula of csep.utils.calc.bin1d_vec agrees with the exact lookup outside the round-off band "
            "(property C02; here checked point by point by the correspondence)",
@@ -65,7 +77,9 @@ TRUSTED = ["Lean 4.33 kernel", "axioms: propext, Classical.choice, Quot.sound at
            "edge tables of the shipped regions in Proofs/Bin1dTables*.lean (compared with the real regions by C02's harness)",
            "libm cosine (cell areas compared numerically)",
            "Soft64 binary64 addition/subtraction for the upper side xs[-1] + (xs[1] - xs[0])",
-           "harness/c01.py generators, exact oracle and comparison; driver parsing (Proto.lean)"]
+           "matplotlib's point-in-path test behind Polygon.contains (input of the masked_region model; checked against an exact test on midpoints "
+           "a quarter cell away from every polygon side)",
+           "harness/c01.py, harness/c01_ops.py generators, exact oracle and comparison; driver parsing (Proto.lean)"]
 RULE = ("lattices: spacing from {0.05,0.1,0.25,0.5,1,2} or a random 1-3 digit decimal, anchors negative / positive / "
         "zero-crossing / |anchor| << spacing, origins as nearest doubles of the decimal lattice or computed in binary64 "
         "(anchor + k*dh, a few ulps off), constructors from_origins with dh, from_origins without dh (spacing inferred from the "
@@ -78,7 +92,11 @@ RULE = ("lattices: spacing from {0.05,0.1,0.25,0.5,1,2} or a random 1-3 digit de
         "query class of a region (inside, band, hole, flagged-out, outside W/E/S/N and corners) are also looked up singly as Python "
         "float, numpy.float64, 0-d array, 1-element list and 1-element array, and as one-event catalogs. Per region "
         "additionally: the construction path (vertices, origins, midpoints and their own-cell lookup, edge arrays, midpoint hash, "
-        "bbox_mask / idx_map, get_bbox, get_location_of with negative and out-of-range indices, to_dict / from_dict, cell areas)")
+        "bbox_mask / idx_map, get_bbox, get_location_of with negative and out-of-range indices, to_dict / from_dict, cell areas). "
+        "Derived regions and sessions per region (harness/c01_ops.py): masked_region with a convex polygon (rectangle / cut corner) judged on its own "
+        "edges and against the old region's partition; get_cartesian of float / int / list data vectors; == against rebuilt, reversed, shifted and "
+        "shortened regions; increase_grid_resolution for factors 1, 2, 4, 8 and rejected 0, 3, 6 with the refined region's parent cells; grid_spacing; "
+        "two filter_spatial sessions of 2-5 calls on one catalog object over region argument a / b / none x update_stats x in_place x bound region x compute_stats")
 
 EPS = Fraction(1, 2 ** 52)
 TINY = Fraction(1, 2 ** 1022)  # gradual underflow of the quotient in bin1d_vec
@@ -412,7 +430,8 @@ def region_key(spec):
         json.dumps([spec["ax"], spec["ay"], spec["dh"], spec["cells"], spec.get("mask"), spec.get("origins")])
 
 
-def check_region(run, drv, pending, spec, pts=None, rng=None, budget=1500, arrays=True, ncat=4, tag="", build=True):
+def check_region(run, drv, pending, spec, pts=None, rng=None, budget=1500, arrays=True, ncat=4, tag="", build=True, ops=True,
+                 ops_seed=None, ops_only=None):
     try:
         region, cells, flags = build_region(spec)
     except Exception as e:
@@ -551,6 +570,10 @@ def check_region(run, drv, pending, spec, pts=None, rng=None, budget=1500, array
                                f"catalog of {len(ids)} events: filter_spatial kept {fs[:20]} / {fs2[:20]} expected {exp_fs[:20]}; "
                                f"spatial_counts {str(sc)[:120]} expected {str(exp_sc)[:120]}")
         cat_impl.append((ids, sc, fs))
+    # derived regions and catalog sessions: masked_region, ==, get_cartesian(data), increase_grid_resolution, filter_spatial sequences
+    if ops and (rng is not None or ops_seed is not None):
+        c01_ops.check_ops(run, drv, pending, spec, base, region, cells, flags, orc, rng, pts, ans, exact_only, case_seed=ops_seed,
+                          only=ops_only)
     # get_cartesian and the arrays
     cart = None
     if arrays:
@@ -607,6 +630,9 @@ def flush(run, drv, pending):
             continue
         if rec.get("kind") == "area":
             flush_area(run, rec, out[rec["q"]])
+            continue
+        if str(rec.get("kind", "")).startswith("ops-"):
+            c01_ops.flush_ops(run, rec, out[rec["q"]])
             continue
         toks = out[rec["q"]].split(" ")
         base = rec["base"]
@@ -1111,9 +1137,16 @@ def replay(run, payload):
     case = payload["case"]
     drv, pending = Driver(), []
     pts = [(float(a), float(b)) for a, b in case.get("points", [])]
-    check_region(run, drv, pending, _spec_cells_tuple(case["region"]) if case["region"]["kind"] != "shipped"
-                 else case["region"], pts=pts or None, rng=None if pts else __import__("random").Random(0),
-                 arrays=case["region"]["kind"] != "shipped" or not case["region"]["name"].startswith("global"),
-                 tag="replay")
+    spec = _spec_cells_tuple(case["region"]) if case["region"]["kind"] != "shipped" else case["region"]
+    arrays = case["region"]["kind"] != "shipped" or not case["region"]["name"].startswith("global")
+    if str(case.get("what", "")).startswith("ops:"):
+        # a derived-region / catalog-session case: the region with freshly generated points, the operation re-drawn from its seed
+        only = dict(masked_region=["masked"], filter_spatial=["filter"], increase_grid_resolution=["incres"],
+                    grid_spacing=["incres"]).get(case["what"][4:], ["eq"])
+        check_region(run, drv, pending, spec, pts=None, rng=__import__("random").Random(case.get("ops_seed", 0)), arrays=arrays,
+                     tag="replay", build=False, ops_seed=case.get("ops_seed", 0), ops_only=only)
+    else:
+        check_region(run, drv, pending, spec, pts=pts or None, rng=None if pts else __import__("random").Random(0),
+                     arrays=arrays, tag="replay")
     flush(run, drv, pending)
     _finish_bits(run)
